@@ -8,7 +8,9 @@ CFG = {
     "trivial_prefix": ("-;",),
     "technique": "Lean 4 proofs over an executable model of vxfw.go with arbitrary widget oracle (and an arbitrary set of failing handler calls); "
                  "model tied to the source by (a) Gen/VxfwCases.lean (switch arms of App.Run and App.handleCommand, statement skeletons of the ten "
-                 "handler functions, regenerated every run, compared by theorem) and (b) two correspondence streams: unexported handlers through "
+                 "handler functions, regenerated every run, compared by theorem), (a') Gen/VxfwBodies.lean: the bodies of the six dispatcher functions "
+                 "translated into syntax; the body of focusHandler.handleEvent is EXECUTED by an interpreter (Model/VxfwInterp.lean) and proved equal to "
+                 "the model's dispatch incl. the returned error, and (b) two correspondence streams: unexported handlers through "
                  "verif_hooks_c15.go, and the real App.Run on a fake console",
     "rule": "C15: random widget sets (1..12 widgets, any subset capturing), random surface trees (depth <= 4, fan-out <= 3, overlapping "
             "children, z-order, children sticking out of the parent, root surface sometimes owned by another widget; every widget drawn once — "
@@ -22,7 +24,10 @@ CFG = {
                      "-> handleCommand bounded by fuel (stack depth)",
                      "sort.Slice on <= 12 children modelled as Go's stable insertion sort (validated by the `render` ops)",
                      "SetMouseShape/SetTitle/CopyToClipboard/SendNotification are one abstract command `other k` (validated with SetTitle)",
-                     "errors returned by Draw (layout) are outside the model (Run returns them)"],
+                     "errors returned by Draw (layout) are outside the model (Run returns them)",
+                     "the interpreter Model/VxfwInterp.lean (what a handler call, a type assertion w.(EventCapturer), app.handleCommand and a "
+                     "return mean) is the semantics of the Go subset handle_event_body_eq_model speaks about; mouseHandler.handleEvent, focusWidget, "
+                     "updatePath, mouseExit, mouseEnter are translated (fully_recognised) but not interpreted"],
     "level_text": "vxfw routing, focus and hover, after the repairs of F115a/F115b/F43 in /repo. Proved for every widget behaviour (oracle), state, "
                   "history and nesting depth, without exclusions: key_routing (capture root->focused, target, bubble parent->root, stop at the first "
                   "consumed offer) and key_routing_drawn (after ANY history of the Run loop the path is the drawn chain of the widget focused now — "
@@ -32,11 +37,18 @@ CFG = {
                   "hover_needs_distinct shows it is necessary), closed on FocusOut / pointer leaving, commands_once and commands_once_history (every "
                   "command returned by any handler call of a history — all phases, notifications, Init, frames, nested batches — takes effect exactly "
                   "once, given the nesting budget did not run out). Handlers that return an error (Props/C15Err): Run returns at the failing call "
-                  "(nothing after it, its command dropped), errors inside focusWidget are logged and the interpreter goes on.",
-    "level_note": "Proved: 58 theorems (Props/C15 26, C15Err 7, C15Gen 12, witnesses 13 showing the pre-fix code violating the statements and the fixed code meeting them). Validated by "
+                  "(nothing after it, its command dropped), errors inside focusWidget are logged and the interpreter goes on. Round 3 (Props/C15Body): the "
+                  "regenerated body of focusHandler.handleEvent, interpreted (range loop with the type assertion and continue, the three handler calls "
+                  "with `if err != nil { return err }`, app.handleCommand, the consume test with `return nil`, the index loop with a checked path[i]) IS "
+                  "eHandleEvent for every oracle/state/event/nesting budget: the new state and WHAT IS RETURNED (handle_event_body_eq_model, "
+                  "handle_event_body_error), hence key_routing holds of the executed body (key_routing_body). F115c (recorded): two widgets answering "
+                  "FocusIn with a focus command for each other exhaust every nesting budget (ping_pong_stuck, all fuels) - on the real code a fatal "
+                  "stack overflow.",
+    "level_note": "Proved: 66 theorems (Props/C15 26, C15Err 7, C15Gen 12, C15Body 5, witnesses 16 showing the pre-fix code violating the statements and the fixed code meeting them). Validated by "
                   "correspondence only: that the model (incl. the error plumbing) equals vxfw.go (0 mismatches expected on ~38k quick / ~500k thorough op "
                   "lines, both streams), Go's sort.Slice stability for <= 12 children, uint16 coordinate arithmetic (proved equal to integer "
-                  "arithmetic for sizes < 65536, hit_list_is_under). Modelled not verified: stack overflow on unbounded refocus recursion (fuel), "
+                  "arithmetic for sizes < 65536, hit_list_is_under). Modelled not verified: stack overflow on unbounded refocus recursion (fuel; Witness.F115c proves the budget runs out for every budget for ping-pong handlers; "
+                  "commands_once_history keeps the hypothesis stuck = false), "
                   "timing of the 8 ms frame timer (frames are explicit steps), Draw errors.",
     "assumptions": ["at most 12 children per surface (Go's sort.Slice is then a stable insertion sort)",
                     "surface sizes fit uint16 (they are uint16 in Go)",
